@@ -459,6 +459,21 @@ def run_fuzz_job(job):
     return job
 
 
+HANG_CAP = 6
+_HANG_LOCK = threading.Lock()
+_HANGS_CONFIRMED = {}
+
+
+def _hang_cap_reached(prop):
+    """True once HANG_CAP cases of this check have hung twice - unless a hang is a listed known finding of the property (then
+    every case still has to run, because another violation must not be hidden behind the known one)"""
+    with _HANG_LOCK:
+        if _HANGS_CONFIRMED.get(prop, 0) < HANG_CAP:
+            return False
+    known, _ = load_known()
+    return not any(k['prop'] == prop and k['key'] == 'hang' for k in known)
+
+
 def run_job(job):
     if job.flavour == 'fuzz':
         return run_fuzz_job(job)
@@ -472,6 +487,11 @@ def run_job(job):
         guard += 1
         if guard > 200:
             job.failures.append('too many restarts: ' + job.ident())
+            break
+        if only is None and _hang_cap_reached(job.prop):
+            # the check already has HANG_CAP confirmed hangs (each one costs two watchdog periods): the violation is established,
+            # the remaining cases of this shard are not run (counted as inconclusive, the verdict stays "violated")
+            job.inconclusive.append((start, 'check abandoned after %d confirmed hangs (remaining cases of this shard not run)' % HANG_CAP))
             break
         extra = ['--start', str(start)] if only is None else ['--only', str(only)]
         r = _run_segment(job, extra, env)
@@ -495,6 +515,8 @@ def run_job(job):
                 job.viol.append({'prop': job.prop, 'key': 'hang', 'k': k,
                                  'witness': json.dumps({'detail': 'no progress for %d s, twice' % job.case_timeout})})
                 job.hangs = getattr(job, 'hangs', 0) + 1
+                with _HANG_LOCK:
+                    _HANGS_CONFIRMED[job.prop] = _HANGS_CONFIRMED.get(job.prop, 0) + 1
                 if job.hangs >= 3:
                     # the violation is established; do not spend hours on further hanging cases of this shard
                     job.inconclusive.append((k, 'shard abandoned after 3 confirmed hangs (remaining cases not run)'))
